@@ -783,6 +783,26 @@ def gen_mn(tier, seed, modes=("full", "tri"), reps=None):
                        "nq": 14 if tier == "quick" else 24}
 
 
+def gen_mn_chain(tier, seed):
+    """long thin models: chains (and one caterpillar) of 6..8 binary variables - the clique tree is a path of 5..7 cliques, so that
+    messages have to travel many hops in both passes"""
+    rng = O.mk_rng(seed, "c02chain")
+    k = 0
+    for n in (6, 7, 8):
+        for style, names in (("int", list(range(n))), ("str", [f"v{i:02d}" for i in range(n)]), ("int", list(range(n - 1, -1, -1)))):
+            for rep in range(1 if tier == "quick" else 3):
+                k += 1
+                order = names[:]
+                if rep:
+                    rng.shuffle(order)
+                edges = [[order[i], order[i + 1]] for i in range(n - 1)]
+                cards = {v: 2 for v in names}
+                add_order = edges[:]
+                rng.shuffle(add_order)
+                yield {"kind": "mn", "vars": _states(rng, names, cards, style if style != "int" else "int"), "edges": add_order,
+                       "factors": _mn_factors(rng, names, edges, cards, "full", zeros=False), "mode": "full", "qseed": k, "nq": 20}
+
+
 def gen_mn_sparse(tier, seed):
     return gen_mn(tier, seed, ("sparse",), 1)
 
@@ -885,6 +905,9 @@ def groups(tier):
                     "no virtual evidence (the argument is ignored for undirected models)"),
         Group("mn_sparse", gen_mn_sparse, check_model, nontrivial, seed_fanout=fan, engine="E3",
               bound="same graphs, pairwise factors on a random subset of the edges + unary factors (cliques that get no factor mentioning one of their variables)"),
+        Group("mn_chain", gen_mn_chain, check_model, nontrivial, seed_fanout=fan, engine="E3",
+              bound="chains of 6, 7, 8 binary variables (integer labels ascending / descending, string labels; thorough: shuffled orders): clique "
+                    "trees that are paths of 5..7 cliques; same checks"),
         Group("mn_equal", gen_mn_equal, check_model, nontrivial, seed_fanout=min(fan, 4), engine="E3",
               bound="same graphs, one factor present two or three times (equal scope and values)"),
         Group("mn_heuristics", gen_heur, check_model, nontrivial, seed_fanout=fan, engine="E3",
